@@ -135,9 +135,9 @@ def gen_sets(rng, items, n, wild):
         else:
             sec, key = NOSEC, rng.choice(KEYS)
         if wild and rng.random() < 0.15:
-            key = rng.choice([b"a/b", b"k k", b" k", b"#k", b"k=", b"[k", b""])
+            key = rng.choice([b"a/b", b"k k", b" k", b"#k", b"k=", b"[k", b"", b";k", b".k", b"k ", b"k\r", b"\xc3\xa9", b"a=b", b"k #;[]", b"k]"])
         if wild and rng.random() < 0.1:
-            sec = rng.choice([b"a]b", b" s ", b"", b"[s]"])
+            sec = rng.choice([b"a]b", b" s ", b"", b"[s]", b" [=#", b"s;", b"#s", b"a=b"])
         val = rvalue(rng)
         if wild and rng.random() < 0.15:
             val = rng.choice([b" lead", b"trail ", b"\ttab\t", b" "])
